@@ -77,20 +77,44 @@ def obligations(M, tier, work, repo, log, only):
     def decl(names_):
         return '\n'.join(f'(declare-const {n} (_ BitVec 128))' for n in names_)
 
-    def solve(name, tr, decls, prop_term, functions, bound, validate):
-        """assert not( all MIR assert obligations hold AND prop ) ; both solvers must say unsat; then validate the translation natively"""
+    def solve(name, tr, decls, prop_term, functions, bound, validate, cases=None, ob_tier='quick'):
+        """assert not( all MIR assert obligations hold AND prop ) ; both solvers must say unsat (per case, if the input space is
+        split into cases whose disjunction is checked to be exhaustive); then validate the translation natively"""
         obl = ' '.join(f'(=> {pc} {c})' for pc, c, _ in tr.obligations) or 'true'
-        q = M.PRELUDE + decls + '\n' + '\n'.join(tr.defs) + '\n' + '\n'.join(M.axioms(tr.mul_sites)) + f'\n(assert (not (and {obl} {prop_term})))\n(check-sat)\n'
-        qfile = os.path.join(base, name + '.smt2')
-        open(qfile, 'w').write(q)
-        to = 600 if tier == 'quick' else 3600
-        r1 = M.run_solver(['/usr/bin/z3', '-in', f'-T:{to}'], q, to + 30)
-        r2 = M.run_solver(['cvc5', '--lang', 'smt2', f'--tlimit={to * 1000}'], q, to + 30)
-        res = dict(base_result, obligation=name, functions=functions, bound=bound, queries=2 + len(tr.obligations),
-                   solver_wall_s=round(r1[1] + r2[1], 1),
-                   stats={'z3': [r1[0], round(r1[1], 1)], 'cvc5': [r2[0], round(r2[1], 1)], 'mir_assert_obligations': len(tr.obligations),
-                          'definitions': len(tr.defs), 'mul64_sites': len(set(tr.mul_sites)), 'query_file': qfile})
-        if r1[0] == 'unsat' and r2[0] == 'unsat':
+        head = M.PRELUDE + decls + '\n' + '\n'.join(tr.defs) + '\n' + '\n'.join(M.axioms(tr.mul_sites)) + '\n'
+        cases_ = cases or [('all', 'true')]
+        to = 900 if tier == 'quick' else 3600
+        verdicts = []
+        wall = 0.0
+        nq = 0
+        stats = {'mir_assert_obligations': len(tr.obligations), 'definitions': len(tr.defs), 'mul64_sites': len(set(tr.mul_sites)), 'cases': {}}
+        if cases:
+            # the cases must cover the whole input space
+            q = head + '(assert (not (or ' + ' '.join(c for _, c in cases) + ')))\n(check-sat)\n'
+            r = M.run_solver(['/usr/bin/z3', '-in', '-T:120'], q, 150)
+            nq += 1
+            wall += r[1]
+            stats['cases']['exhaustive'] = r[0]
+            if r[0] != 'unsat':
+                verdicts.append(('exhaustiveness', r[0], r[0]))
+        qfile = None
+        for cname, cterm in cases_:
+            q = head + f'(assert {cterm})\n(assert (not (and {obl} {prop_term})))\n(check-sat)\n'
+            qfile = os.path.join(base, f'{name}-{cname}.smt2')
+            open(qfile, 'w').write(q)
+            r1 = M.run_solver(['/usr/bin/z3', '-in', f'-T:{to}'], q, to + 30)
+            if r1[0] in ('timeout', 'unknown', 'error'):
+                r1b = M.run_solver(['z3-new', '-in', f'-T:{to}'], q, to + 30)
+                r1 = (r1b[0], r1[1] + r1b[1], 'z3-new: ' + r1b[2][:100])
+            r2 = M.run_solver(['cvc5', '--lang', 'smt2', f'--tlimit={to * 1000}'], q, to + 30)
+            nq += 2
+            wall += r1[1] + r2[1]
+            stats['cases'][cname] = {'z3': [r1[0], round(r1[1], 1)], 'cvc5': [r2[0], round(r2[1], 1)]}
+            verdicts.append((cname, r1[0], r2[0]))
+            log(f"  [engine M] {name}[{cname}]: z3={r1[0]} ({r1[1]:.1f}s) cvc5={r2[0]} ({r2[1]:.1f}s)")
+        res = dict(base_result, obligation=name, tier=ob_tier, functions=functions, bound=bound, queries=nq + len(tr.obligations),
+                   solver_wall_s=round(wall, 1), stats=dict(stats, query_file=qfile))
+        if all(a == 'unsat' and b == 'unsat' for _, a, b in verdicts):
             ok, detail, n = validate()
             res['stats']['translator_validation'] = detail
             res['covers'] = {'translator agrees with the native function on %d concrete inputs' % n: 'Satisfied' if ok else 'FAILED'}
@@ -100,17 +124,18 @@ def obligations(M, tier, work, repo, log, only):
             else:
                 res['verdict'] = 'inconclusive'
                 res['reason'] = 'translator validation failed: ' + detail
-        elif r1[0] == 'sat' or r2[0] == 'sat':
-            # a model: check it natively before reporting
+        elif any(a == 'sat' or b == 'sat' for _, a, b in verdicts):
+            cname = next(c for c, a, b in verdicts if a == 'sat' or b == 'sat')
             res['verdict'] = 'inconclusive'
-            res['reason'] = f'solver returned sat (z3={r1[0]}, cvc5={r2[0]}); model replay through the native function is required before reporting: see {qfile}'
+            res['reason'] = f'solver returned sat in case {cname}; model replay through the native function is required before reporting'
+            q = open(os.path.join(base, f'{name}-{cname}.smt2')).read()
             model = replay_model(name, q, decls)
             if model is not None:
                 res.update(model)
         else:
             res['verdict'] = 'inconclusive'
-            res['reason'] = f'no agreement: z3={r1[0]} {r1[2][:100]} cvc5={r2[0]} {r2[2][:100]}'
-        log(f"  [engine M] {name}: z3={r1[0]} ({r1[1]:.1f}s) cvc5={r2[0]} ({r2[1]:.1f}s) -> {res['verdict']}")
+            res['reason'] = 'no agreement: ' + '; '.join(f'{c}: z3={a} cvc5={b}' for c, a, b in verdicts if not (a == 'unsat' and b == 'unsat'))
+        log(f"  [engine M] {name} -> {res['verdict']} {res.get('reason', '')[:150]}")
         return res
 
     def replay_model(name, q, decls):
@@ -167,10 +192,9 @@ def obligations(M, tier, work, repo, log, only):
             q += '(push)\n' + ''.join(f'(assert (= {k} (_ bv{v} 128)))\n' for k, v in asg.items()) + '(check-sat)\n(get-value (' + ' '.join(outs) + '))\n(pop)\n'
         st, _, out = M.run_solver(['/usr/bin/z3', '-in', '-T:300'], q, 330)
         import re
-        rows = re.findall(r'\(\((?:[^()]|\([^()]*\))*\)\)', out.replace('\n', ' '))
         res = []
-        for row in rows:
-            vs = re.findall(r'(#x[0-9a-f]+|#b[01]+|true|false)\)', row)
+        for chunk in out.split('sat')[1:]:
+            vs = re.findall(r'\(\s*[A-Za-z_][A-Za-z0-9_]*\s+(#x[0-9a-f]+|#b[01]+|true|false)\s*\)', chunk)
             res.append([int(v[2:], 16) if v.startswith('#x') else (int(v[2:], 2) if v.startswith('#b') else v) for v in vs])
         return res
 
@@ -208,7 +232,7 @@ def obligations(M, tier, work, repo, log, only):
     quads = [(vals[i % len(vals)], vals[(i * 7 + 3) % len(vals)], vals[(i * 5 + 1) % len(vals)], vals[(i * 11 + 2) % len(vals)]) for i in range(60)]
     quads += [(x, 0, y, 0) for x in vals[:6] for y in vals[:6]] + [(0, 0, 5, 7), (1, 0, M128, M128), (M128, M128, M128, M128), (0, 1 << 127, M128, M128), (0, 1 << 127, 1, 0)]
 
-    if want('m_i256_wrapping_mul_exact'):
+    if want('m_i256_wrapping_mul_exact') and tier == 'thorough':
         try:
             tr = M.Translator(fns)
             a, b = i256_args()
@@ -230,12 +254,12 @@ def obligations(M, tier, work, repo, log, only):
                 return (bad == 0 and len(got) == len(quads) == len(nat)), f'{len(quads) - bad}/{len(quads)} concrete inputs: SMT term == native == exact', len(quads)
 
             results.append(solve('m_i256_wrapping_mul_exact', tr, decl(['al', 'ah', 'bl', 'bh']), prop,
-                                 ['arrow_buffer::i256::wrapping_mul', 'arrow_buffer::bigint::mulx'], 'full width: every pair of i256 operands', validate))
+                                 ['arrow_buffer::i256::wrapping_mul', 'arrow_buffer::bigint::mulx'], 'full width: every pair of i256 operands', validate, ob_tier='thorough'))
         except M.Unsupported as e:
             results.append(dict(base_result, obligation='m_i256_wrapping_mul_exact', verdict='inconclusive', reason=f'translator: {e}', functions=['i256::wrapping_mul'], bound='', queries=0))
 
     # ------------------------------------------------------------------ checked_mul
-    if want('m_i256_checked_mul_exact'):
+    if want('m_i256_checked_mul_exact') and tier == 'thorough':
         try:
             tr = M.Translator(fns)
             a, b = i256_args()
@@ -276,9 +300,15 @@ def obligations(M, tier, work, repo, log, only):
                         bad += 1
                 return (bad == 0 and len(got) == len(quads) == len(nat) and 0 < some < len(quads)), f'{len(quads) - bad}/{len(quads)} concrete inputs ({some} non-overflowing): SMT term == native == exact', len(quads)
 
+            cases = []
+            for sa, ta in (('ap', '(not na)'), ('an', 'na')):
+                for sb, tb in (('bp', '(not nb)'), ('bn', 'nb')):
+                    for hz, th in (('h00', '(and (= mah (_ bv0 128)) (= mbh (_ bv0 128)))'), ('h0x', '(and (= mah (_ bv0 128)) (not (= mbh (_ bv0 128))))'),
+                                   ('hx0', '(and (not (= mah (_ bv0 128))) (= mbh (_ bv0 128)))'), ('hxx', '(and (not (= mah (_ bv0 128))) (not (= mbh (_ bv0 128))))')):
+                        cases.append((f'{sa}{sb}{hz}', f'(and {ta} {tb} {th})'))
             results.append(solve('m_i256_checked_mul_exact', tr, decl(['al', 'ah', 'bl', 'bh']), prop,
                                  ['arrow_buffer::i256::checked_mul', 'i256::wrapping_abs', 'i256::wrapping_sub', 'i256::is_eq', 'i256::is_negative', 'i256::from_parts', 'arrow_buffer::bigint::mulx'],
-                                 'full width: every pair of i256 operands; Some(r) iff the exact signed product fits 256 bits, and then r is that product', validate))
+                                 'full width: every pair of i256 operands (16 sign x high-limb cases, checked exhaustive); Some(r) iff the exact signed product fits 256 bits, and then r is that product', validate, cases=cases, ob_tier='thorough'))
         except M.Unsupported as e:
             results.append(dict(base_result, obligation='m_i256_checked_mul_exact', verdict='inconclusive', reason=f'translator: {e}', functions=['i256::checked_mul'], bound='', queries=0))
 
